@@ -488,7 +488,9 @@ class AttributeCollection(MutableMapping[int, Attribute]):
                 if kls and kls.DISCARD:
                     self.add(Discard())
                     return left
-                raise exc
+                # an attribute with neither RFC 7606 class: a malformed value is an UPDATE Message Error
+                # (malformed attribute list), not an untyped exception for the reactor's catch-all
+                raise Notify(3, 1, f'malformed attribute {aid}: {exc}') from None
             except Notify as exc:
                 if kls and kls.TREAT_AS_WITHDRAW:
                     self.add(TreatAsWithdraw())
